@@ -385,7 +385,7 @@ impl StateCheck for C10 {
     }
 }
 
-fn aux_env_letters() -> Vec<Letter> {
+pub fn aux_env_letters() -> Vec<Letter> {
     let mut al = vec![];
     for id in [1, 2] {
         al.push(Letter::many(vec![a(Some(id), &k(&[2, 2])), u(Some(id), "ACS", "GASNATURAL", &k(&[3, 1])), u(Some(id), "CAL", "GASNATURAL", &k(&[1, 3])), o(id, "ACS", &k(&[1, 1])), o(id, "CAL", &k(&[1, 3]))]));
